@@ -5,6 +5,7 @@ here="$(cd "$(dirname "$0")" && pwd)"
 cd "$here"
 export JADE_SRC="${JADE_SRC:-/repo}"
 python3 tools/extract.py
+python3 tools/gen_lean_index.py
 cd lean
 lake build JadeModel drv 2>&1 | tail -5
 test -x .lake/build/bin/drv
